@@ -768,3 +768,41 @@ func isFreshAlloc(v ssa.Value) bool {
 func relName(c *Ctx, pkgPath string) string {
 	return strings.TrimPrefix(strings.TrimPrefix(pkgPath, c.ModPath), "/")
 }
+
+// sameValue: structural equality of pure SSA expressions (go/ssa performs no CSE).
+func sameValue(a, b ssa.Value) bool {
+	if a == b {
+		return true
+	}
+	if a == nil || b == nil {
+		return false
+	}
+	switch x := a.(type) {
+	case *ssa.Const:
+		y, ok := b.(*ssa.Const)
+		if !ok || (x.Value == nil) != (y.Value == nil) {
+			return false
+		}
+		if x.Value == nil {
+			return types.Identical(x.Type(), y.Type())
+		}
+		return constant.Compare(x.Value, token.EQL, y.Value)
+	case *ssa.BinOp:
+		y, ok := b.(*ssa.BinOp)
+		return ok && x.Op == y.Op && sameValue(x.X, y.X) && sameValue(x.Y, y.Y)
+	case *ssa.Convert:
+		y, ok := b.(*ssa.Convert)
+		return ok && types.Identical(x.Type(), y.Type()) && sameValue(x.X, y.X)
+	case *ssa.Call:
+		y, ok := b.(*ssa.Call)
+		if !ok {
+			return false
+		}
+		bx, okx := x.Call.Value.(*ssa.Builtin)
+		by, oky := y.Call.Value.(*ssa.Builtin)
+		if okx && oky && bx.Name() == by.Name() && (bx.Name() == "len" || bx.Name() == "cap") {
+			return sameValue(x.Call.Args[0], y.Call.Args[0])
+		}
+	}
+	return false
+}
